@@ -103,6 +103,13 @@ func (p *Processor) handleCleanup(ctx context.Context) {
 				gs = p.gs
 			}
 
+			if gs == nil {
+				// The VAA was injected before the first guardian set was observed, so there is
+				// no set to count signatures against yet.
+				p.logger.Warn("VAA settled without a known guardian set", zap.String("digest", hash), zap.Duration("delta", delta))
+				continue
+			}
+
 			hasSigs := len(s.signatures)
 			wantSigs := CalculateQuorum(len(gs.Keys))
 			quorum := hasSigs >= wantSigs
